@@ -95,6 +95,18 @@ CHECKS.update({
         "Trusted: SQLite, Python integer datetime arithmetic. Exhaustive over the grid only (see DESIGN 5); two repaired defects (sqlite float us, memory aliasing).",
         "DESIGN.md 3.4, 4 C01",
     ),
+    "C06": (
+        "explicit-state BFS over write/read/bucket/clock histories of the real file-backed stores with exhaustive crash-point enumeration (image before every SQL statement and at every return), prefix-chain model",
+        "All reachable commit-protocol states of the real sqlite store (uncommitted counter 0..50 x elapsed class x enabledness) are enumerated to fixpoint under 18 operations incl. bulk inserts of 2/49/50/51 rows; for every transition the database files are imaged before every SQL statement of the operation and at its return, reopened the way a restarted process would (real constructor), and compared with the chain of model states: must be a prefix in issue order, durability never regresses, single-event/bucket-level ops are never split, bucket ops and reads flush, at most 64 elementary writes (deletions counted, explored from a 70-event bucket) are missing at return; peewee: every completed op durable. The imaging method is validated against real SIGKILL / exit-without-shutdown of a forked child at 24 points per run.",
+        "Trusted: SQLite's atomic commit; process death (not power loss). Content of events is abstracted in the canonical form (cannot influence the commit decision).",
+        "DESIGN.md 3.3, 4 C06",
+    ),
+    "C18": (
+        "explicit-state BFS over write/clock histories of the real sqlite store under an owned virtual clock, crash image at every return",
+        "With the storage module's clock replaced by a virtual one, all histories of <=8 operations (thorough: to fixpoint) over event writes, reads, bucket ops and clock steps (+5/+6 s; elapsed 10 / 11 / >=12) are explored with state dedup; after any event write that returns more than 11 virtual seconds after the previous flush the crash image must contain it. One wall-clock trace (insert, sleep 11.5 s, insert) per run validates the virtual clock against the real one.",
+        "Trusted: the harness owns the only clock the commit logic reads (self-checked). 'About ten seconds' = 11 s with slack.",
+        "DESIGN.md 3.3, 4 C18",
+    ),
 })
 
 NOT_YET = {}
